@@ -321,6 +321,18 @@ func (a *plAnalysis) checkC03() {
 				if m.BeginTs() != m.EndTs() || m.Position().GetTimestamp() != m.EndTs() {
 					a.v("C03/msg-ts-disagree", "pack %d on %s: message %s begin %d end %d position ts %d", pi, pch, m.Position().GetMsgID(), m.BeginTs(), m.EndTs(), m.Position().GetTimestamp())
 				}
+				// what the downstream decodes: a drop message is serialized without row timestamps, its time on the wire
+				// is the timestamp of its request base
+				switch x := m.(type) {
+				case *msgstream.DropCollectionMsg:
+					if x.GetBase().GetTimestamp() != m.EndTs() {
+						a.v("C03/wire-ts-disagree/drop-collection", "pack %d on %s: drop-collection message %s is stamped %d but its serialized request base carries %d", pi, pch, m.Position().GetMsgID(), m.EndTs(), x.GetBase().GetTimestamp())
+					}
+				case *msgstream.DropPartitionMsg:
+					if x.GetBase().GetTimestamp() != m.EndTs() {
+						a.v("C03/wire-ts-disagree/drop-partition", "pack %d on %s: drop-partition message %s is stamped %d but its serialized request base carries %d", pi, pch, m.Position().GetMsgID(), m.EndTs(), x.GetBase().GetTimestamp())
+					}
+				}
 				var rows []uint64
 				switch x := m.(type) {
 				case *msgstream.InsertMsg:
